@@ -229,6 +229,14 @@ class World:
             except Exception as e: raise PyExc(type(e), e.args)
         if isinstance(f, type) and issubclass(f, BaseException):
             return _ExcInstance(f, args)
+        # a module-level private helper of the package (e.g. a node group shared by two rules of one logic module): it has no
+        # contract of its own, so the caller's obligation follows its body from source
+        if isinstance(base, types.FunctionType) and recv is None and str(getattr(base, '__module__', '')).startswith('pytableaux.') \
+                and '.' not in base.__qualname__ and base.__name__.startswith('_') and not base.__name__.startswith('__'):
+            fi = source.of_function(base)
+            self.used_inline.add(fi.key)
+            it.inlined.add(fi.key)
+            return it.call_source(fi, base, None, list(args), kw)
         raise Outside(f'call of {getattr(f, "__module__", "?")}.{getattr(f, "__qualname__", repr(f))} (no contract, not inline)')
 
     def call_builtin_method(self, it, f, args, kw):
